@@ -9,6 +9,13 @@ where x is the concatenation of all the inputs in grammar order.  Its Jacobian i
     d out_i / d x_j = A[out][i][j] + 2 * q[out][i] * x_j
 
 Everything is integer/dyadic, so every float intermediate is exact on the exact stream.
+
+Body styles with side effects on the input arrays (what real disciplines with a state do):
+`spec["wr"] = {input: [k, syntax]}`: after computing the outputs from the values it was called with,
+the body adds `k` **in place** to the array it was given for `input` (`arr += k`, `arr[:] = arr + k` or
+`np.add(arr, k, out=arr)`); `spec["alias"] = {output: [input, "same" | "view"]}`: the body returns the
+(updated) input array itself, or a full view of it, as `output` (the polynomial of such an output is
+`x_input + k`, so the value of the returned array is the value of the polynomial).
 The body counts its runs and linearizations and logs (snapshots of) the inputs it saw: this is the
 run-counter instrumentation of the oracle; it lives in the harness, not in /repo.
 """
@@ -58,8 +65,10 @@ class PolyDisc(Discipline):
                 defaults[n] = np.array([float(Fraction(t)) for t in dflt])
         self.io.input_grammar.defaults = defaults
         self.A = {o: np.array(spec["A"][o], dtype=float).reshape(self.out_sizes[o], -1) for o in self.out_names}
-        self.b = {o: np.array(spec["b"][o], dtype=float) for o in self.out_names}
+        self.b = {o: np.array([float(Fraction(c)) for c in spec["b"][o]], dtype=float) for o in self.out_names}
         self.q = {o: np.array(spec["q"][o], dtype=float) for o in self.out_names}
+        self.writes = [(n, float(Fraction(k)), syn) for n, (k, syn) in (spec.get("wr") or {}).items()]
+        self.alias = {o: (n, style) for o, (n, style) in (spec.get("alias") or {}).items()}
         self.n_run = 0
         self.n_jac = 0
         self.run_log: list[tuple] = []
@@ -79,6 +88,18 @@ class PolyDisc(Discipline):
         if self.run_sets_jac:
             self._fill_jac(input_data)
             self._has_jacobian = True
+        # side effects on the input arrays (after everything was computed from the call-time values)
+        for n, k, syntax in self.writes:
+            arr = input_data[n]
+            if syntax == "iadd":
+                arr += k
+            elif syntax == "slice":
+                arr[:] = arr + k
+            else:
+                np.add(arr, k, out=arr)
+        for o, (n, style) in self.alias.items():
+            arr = input_data[n]
+            out[o] = arr if style == "same" else arr[:]
         return out
 
     def _fill_jac(self, data) -> None:
